@@ -116,6 +116,16 @@ Definition dec_wcall (v : val) : wcall :=
   end.
 Definition dec_cres (v : val) : cres := (as_n (nth_val 0 v), map dec_wcall (as_l (nth_val 1 v))).
 
+(* the header of the property text, literally: Content-Type: text/event-stream *)
+Definition lit_content_type : bytes := [67; 111; 110; 116; 101; 110; 116; 45; 84; 121; 112; 101].
+Definition lit_event_stream : bytes := [116; 101; 120; 116; 47; 101; 118; 101; 110; 116; 45; 115; 116; 114; 101; 97; 109].
+(* every header a session sets is that one *)
+Definition headers_literal (rs : list cres) : bool :=
+  forallb (fun c => match c with
+                    | LHeaderSet n v => bytes_eqb n lit_content_type && bytes_eqb v lit_event_stream
+                    | _ => true
+                    end) (full_log rs).
+
 Definition has_write_header (code : N) (l : list wcall) : bool :=
   existsb (fun c => match c with LWriteHeader c' => (c' =? code)%N | _ => false end) l.
 
@@ -134,7 +144,7 @@ Definition holds_session (i o : val) : bool :=
       let calls := map (dec_call pool) (as_l (nth_val 3 i)) in
       if can_flush w then
         match as_l o with
-        | VN 0%N :: rs => session_ok calls (map dec_cres rs)
+        | VN 0%N :: rs => session_ok calls (map dec_cres rs) && headers_literal (map dec_cres rs)
         | _ => false
         end
       else true (* Upgrade on a writer that cannot flush: the property speaks about ServeHTTP only *)
@@ -172,7 +182,7 @@ Definition holds_session (i o : val) : bool :=
               field_eqb lei (expected_lei h) &&
               list_eqb bytes_eqb topics
                        (expected_topics ons) &&
-              session_ok (firstn (length rs) calls) rs &&
+              session_ok (firstn (length rs) calls) rs && headers_literal rs &&
               (* the provider refused before anything was sent: the answer is 500 *)
               match perr with
               | Some _ => if sent_something (full_log rs) then true else has_write_header 500 server
